@@ -488,6 +488,66 @@ func main() {
 			t.Outcome("rsv1-only-on-first-frame-of-compressed")
 		})
 
+		// An application configures the writers of two connections from one extension list of its
+		// own; one writer is later Reset and given another list (longer, shorter, of equal length),
+		// any number of times. The application's list is the application's, and the other writer goes
+		// on marking its compressed messages with RSV1 on the first frame only.
+		r.Part("E1c-one-extension-list-for-two-writers", func(t *explore.T) {
+			for _, client := range []bool{false, true} {
+				for _, otherLen := range []int{0, 1, 2, 3} {
+					for _, rounds := range []int{1, 2, 5} {
+						client, otherLen, rounds := client, otherLen, rounds
+						t.Do(func() string {
+							return fmt.Sprintf("client=%v: writers A and B get SetExtensions(list...) with one application list; A is Reset and given a list of %d other extensions, %d time(s); then B sends a compressed message", client, otherLen, rounds)
+						}, func() *explore.Fail {
+							st := ws.StateServerSide | ws.StateExtended
+							if client {
+								st = ws.StateClientSide | ws.StateExtended
+							}
+							var msB, msOther wsflate.MessageState
+							pass := wsutil.SendExtensionFunc(func(h ws.Header) (ws.Header, error) { return h, nil })
+							list := []wsutil.SendExtension{&msB, pass}
+							keep := append([]wsutil.SendExtension{}, list...)
+							dA, dB := env.NewDst(), env.NewDst()
+							a := wsutil.NewWriterSize(dA, st, ws.OpText, 16)
+							b := wsutil.NewWriterSize(dB, st, ws.OpText, 16)
+							a.SetExtensions(list...)
+							b.SetExtensions(list...)
+							for i := 0; i < rounds; i++ {
+								a.Write([]byte("hello"))
+								a.Flush()
+								a.Reset(dA, st, ws.OpText)
+								other := []wsutil.SendExtension{&msOther, pass, pass}[:otherLen]
+								a.SetExtensions(other...)
+							}
+							if len(list) != len(keep) || list[0] != keep[0] {
+								return explore.Failf("application-extension-list-modified-by-another-writer", "the application's list changed under it")
+							}
+							msB.SetCompressed(true)
+							payload := bytes.Repeat([]byte("0123456789"), 5)
+							b.Write(payload)
+							b.Flush()
+							frames, rest := drivers.ParseFrames(dB.Bytes())
+							if len(rest) != 0 || len(frames) < 2 {
+								return explore.Failf("harness-frames", "%d frames, %d stray bytes", len(frames), len(rest))
+							}
+							for i, f := range frames {
+								want := byte(0)
+								if i == 0 {
+									want = 4
+								}
+								if f.H.Rsv != want {
+									return explore.Failf("RSV1-wrong-after-another-writer-was-reconfigured", "frame %d of B's compressed message has rsv=%d want %d", i, f.H.Rsv, want)
+								}
+							}
+							return nil
+						})
+					}
+				}
+			}
+			t.Outcome("ok")
+		})
+
 		r.Part("E1b-bit-helpers", func(t *explore.T) {
 			for fin := 0; fin < 2; fin++ {
 				for op := 0; op < 16; op++ {
